@@ -183,7 +183,7 @@ def g_import_from(R, tier):
                     if not c13._provably_zero(c, A.length):
                         exp_from.append(("segvals", A.length, A.jvar, False, (("const", ("str", ("id", tagstr(A.items[0].name.tag)))),)))
                 R.check(f"{nm}/fromlist-names-every-imported-name-in-order/{sig}", fromlist[0] == "listdisp" and TL.term_eq(c, c07_prune_vals(c, fromlist[1]), tuple(exp_from)),
-                        f"{fromlist!r} expected {exp_from!r}")
+                        f"{fromlist!r} expected {exp_from!r}", replay=dict(kind="imports"))
                 # 2. then, per alias in order: bind (asname or name) to <module>.<name>
                 binds = [e for e in tr[1:] if e[0] == "rep"]
                 want = [A for A in node.names if not c13._provably_zero(c, A.length)]
@@ -233,6 +233,11 @@ def replay_imports(rp):
             "from olpkg_v.sub import leaf, subv as s\nr = (leaf.leafv, s)\n",
             "def f():\n    import olpkg_v.sub.leaf\n    from olpkg_v.mod import value as v\n    return olpkg_v.sub.leaf.leafv, v\nr = f()\n",
             "class K:\n    import olpkg_v.mod as m\n    from olpkg_v import top\nr = (K.m.value, K.top)\n",
+            "from olpkg_v import mod as M2\nr = M2.value\n",
+            "from olpkg_v.sub import leaf as LF\nr = LF.leafv\n",
+            "class K2:\n    import olpkg_v.sub.leaf\nr = K2.olpkg_v.sub.leaf.leafv\n",
+            "def f2():\n    global olpkg_v\n    import olpkg_v.mod\nf2()\nr = olpkg_v.mod.value\n",
+            "def f3():\n    import olpkg_v.sub\n    def g():\n        return olpkg_v.sub.subv\n    return g()\nr = f3()\n",
         ]
         import builtins
         for src in progs:
